@@ -23,6 +23,15 @@ def run(ctx):
     if not ok:
         return
     ctx.validate(TRACE_MODULE, tr, label="pure", min_lines=500)
+    # the same program on the aligned qualifiers of an intrinsic build (glm/simd/geometric.h kernels: dot via _mm_dp_ps at AVX, hadd at SSE3 ...)
+    for vl, isa in ([("aligned-avx2", ["-mavx2", "-mfma"])] if ctx.quick else [("aligned-avx2", ["-mavx2", "-mfma"]), ("aligned-sse2", ["-msse2"]), ("aligned-sse3", ["-msse3"])]):
+        ba = ctx.build("c12_" + vl.replace("-", "_"), "c12.cpp", flags=["-DC12_ALIGNED", "-DGLM_FORCE_INTRINSICS", "-DGLM_FORCE_ALIGNED_GENTYPES"] + isa, opt="-O1")
+        if not ba:
+            continue
+        tra = ctx.scratch.path("c12-%s.ndjson" % vl)
+        ok, out = ctx.run_harness(ba, [tra, ctx.tier], tra)
+        if ok:
+            ctx.validate(TRACE_MODULE, tra, label=vl, min_lines=500)
     ctx.rule("every function of glm/geometric.hpp (dot length distance cross normalize faceforward reflect refract) on vec1..vec4 and the scalar "
              "genType overloads, gtx length2 distance2 l1Norm l2Norm lMaxNorm lxNorm proj perp orthonormalize(vec3,vec3 / mat3) angle "
              "orientedAngle(2D/3D) closestPointOnLine(2D/3D) triangleNormal cross(vec2) mixedProduct; float and double; highp plus every "
